@@ -11,7 +11,7 @@ ID = "C20"
 THEOREM = ("Ufo2ft.C20.C20_partial / C20_unscripted_everywhere / C20_languages / C20_kern_keys_partial / C20_dflt / "
            "C20_model_failures_shapeA_partial / C20_false_as_stated / C20_quirk_witness / C20_rejects / C20_register / "
            "C20_ds_extra_complete / C20_ds_extra / C20_ds_variable_same / C20_ds_extra_paths / C20_ds_alternate_inherits / "
-           "C20_ds_classify / C20_merge_disjoint / C20_merge_cover / C20_merge_sound / C20_merge_never_asserts / C20_merge_asserts_iff / C20_merge_pairs / C20_merge_lands / C20_merge_holds / C20_merge_idempotent / C20_merge_disjoint_id / C20_var_pairs")
+           "C20_ds_classify / C20_merge_disjoint / C20_merge_cover / C20_merge_sound / C20_merge_never_asserts / C20_merge_asserts_iff / C20_merge_pairs / C20_merge_lands / C20_merge_holds / C20_merge_idempotent / C20_merge_disjoint_id / C20_merge_exact / C20_var_pairs")
 PROOF_FILES = ["C20", "C20Merge"]
 N = {"quick": 1200, "thorough": 12000}
 RULE = ("fonts: 1-4 scripts drawn from latn/grek/cyrl/hebr/arab/deva/beng/khmr/mymr/nko/hira+kana/thai plus common glyphs and "
